@@ -30,6 +30,7 @@ EXE = "model_c09"
 KINDS = ["cloud", "roll", "lattice", "curve", "flat2", "grid"]
 
 
+
 def median(xs):
     xs = sorted(xs)
     return xs[len(xs) // 2]
@@ -37,7 +38,7 @@ def median(xs):
 
 def make_spec(r, op, method, quick, force=None):
     force = force or {}
-    kind = force.get("kind") or r.choice(KINDS)
+    kind = force.get("kind") or (r.choice(KINDS) if not (op == "embed" and method == "le" and r.chance(1, 6)) else "twoclusters")
     D = force.get("D") or (r.choice([1, 2, 3, 3, 5]) if kind not in ("roll", "curve") else 3)
     if kind in ("grid", "flat2"):
         D = max(D, 2)
@@ -59,7 +60,12 @@ def make_spec(r, op, method, quick, force=None):
         "seed": str(r.below(1 << 30)),
         "lists": "knn" if r.chance(3, 4) else "random",
         "lseed": r.below(1 << 60),
+        # half of the cases hand the library a NON-identity range (shuffled subset of the samples the callback knows)
+        "dseed": r.below(1 << 60) if r.chance(1, 2) else None,
     }
+    if kind == "twoclusters":
+        spec["cc"] = "1"
+        spec["k"] = 3
     return spec
 
 
@@ -67,6 +73,12 @@ def build_line(spec):
     pts = spec["pts"]
     N = len(pts)
     Dm = _ll.distance_matrix(pts, spec["metric"])
+    sel = None
+    Dall = Dm
+    if spec.get("dseed") is not None:
+        dim = len(pts[0])
+        allp, sel = _ll.with_decoys(pts, spec["dseed"], lambda rr: [Fraction(rr.range(-1024, 1024), 128) for _ in range(dim)])
+        Dall = _ll.distance_matrix(allp, spec["metric"])
     k = min(spec["k"], N - 1)
     if spec["op"] == "dm" or spec["method"] == "dm":
         ref = median([Dm[i][j] for i in range(N) for j in range(i + 1, N)])
@@ -85,7 +97,9 @@ def build_line(spec):
         else:
             nb = _ll.random_lists(vlib.SplitMix64(spec["lseed"]), N, k)
         head += " nb=" + _ll.fmt_lists(nb)
-    return head + " dist=" + _ll.fmt_matrix(Dm)
+    if sel is not None:
+        head += " sel=" + ",".join(str(i) for i in sel)
+    return head + " dist=" + _ll.fmt_matrix(Dall)
 
 
 def label(spec):
